@@ -1,4 +1,325 @@
-//! C17 — layoutx (stub)
+//! C17 — layout part: Coverage / ClassDef / GDEF subsetting (`klippa/src/layout.rs`, `gdef.rs`) and the GSUB / GPOS
+//! pass-through (`lib.rs` `passthrough_table`).
 use fv_harness::common::*;
+use klippa::{subset_font, verif_hooks as vh};
+use read_fonts::tables::gdef::{CaretValue, Gdef};
+use read_fonts::tables::layout::DeviceOrVariationIndex;
+use read_fonts::types::{F2Dot14, GlyphId, GlyphId16, Tag};
+use read_fonts::{FontRef, TableProvider};
 
-pub fn run(_cfg: &Config, _s: &mut Session, _r: &mut Rng) {}
+use super::{make_plan, Req};
+
+const F_RETAIN_GIDS: u16 = 0x0002;
+
+fn input_str(label: &str, req: &Req) -> String {
+    format!(
+        "font={label} flags={:#x} gids=[{}] unicodes=[{}]",
+        req.flags,
+        join(&req.gids),
+        req.unicodes.iter().map(|u| format!("{u:x}")).collect::<Vec<_>>().join(" ")
+    )
+}
+
+fn table<'a>(font: &FontRef<'a>, tag: &[u8; 4]) -> Option<&'a [u8]> {
+    font.table_data(Tag::new(tag)).map(|d| d.as_bytes())
+}
+
+// ---------------------------------------------------------------------------------------------
+// model-independent observation of a GDEF table through read-fonts
+// ---------------------------------------------------------------------------------------------
+
+/// sampled normalised locations for a font with `n` axes
+fn sample_coords(n: usize) -> Vec<Vec<F2Dot14>> {
+    if n == 0 {
+        return vec![vec![]];
+    }
+    let vals = [1.0f32, -1.0, 0.5, -0.5, 0.25];
+    let mut out = vec![];
+    for v in vals {
+        out.push(vec![F2Dot14::from_f32(v); n]);
+    }
+    for a in 0..n.min(4) {
+        let mut c = vec![F2Dot14::from_f32(0.0); n];
+        c[a] = F2Dot14::from_f32(1.0);
+        out.push(c.clone());
+        c[a] = F2Dot14::from_f32(-1.0);
+        out.push(c);
+    }
+    out
+}
+
+fn axis_count(font: &FontRef) -> usize {
+    font.fvar().map(|f| f.axis_count() as usize).unwrap_or(0)
+}
+
+fn device_obs(gdef: &Gdef, dev: &DeviceOrVariationIndex, coords: &[Vec<F2Dot14>]) -> String {
+    match dev {
+        DeviceOrVariationIndex::Device(d) => {
+            format!("dev({},{},{:?},{:?})", d.start_size(), d.end_size(), d.delta_format() as u16, d.iter().collect::<Vec<_>>())
+        }
+        DeviceOrVariationIndex::VariationIndex(v) => {
+            let ix = read_fonts::tables::variations::DeltaSetIndex { outer: v.delta_set_outer_index(), inner: v.delta_set_inner_index() };
+            let ds: Vec<String> = match gdef.item_var_store() {
+                Some(Ok(store)) => coords
+                    .iter()
+                    .map(|c| match store.compute_delta(ix, c) {
+                        Ok(d) => d.to_string(),
+                        Err(_) => "err".into(),
+                    })
+                    .collect(),
+                Some(Err(_)) => vec!["store-err".into()],
+                None => vec!["no-store".into()],
+            };
+            format!("var[{}]", ds.join(","))
+        }
+    }
+}
+
+/// everything GDEF says about glyph `gid` except mark-set membership
+fn gdef_glyph_obs(gdef: &Gdef, gid: u32, coords: &[Vec<F2Dot14>]) -> String {
+    let g16 = GlyphId16::new(gid as u16);
+    let gg = GlyphId::new(gid);
+    let cls = match gdef.glyph_class_def() {
+        Some(Ok(cd)) => cd.get(g16).to_string(),
+        Some(Err(_)) => "err".into(),
+        None => "0".into(),
+    };
+    let mac = match gdef.mark_attach_class_def() {
+        Some(Ok(cd)) => cd.get(g16).to_string(),
+        Some(Err(_)) => "err".into(),
+        None => "0".into(),
+    };
+    let att = match gdef.attach_list() {
+        Some(Ok(al)) => match al.coverage().ok().and_then(|c| c.get(gg)) {
+            Some(i) => match al.attach_points().get(i as usize) {
+                Ok(ap) => format!("{:?}", ap.point_indices().iter().map(|p| p.get()).collect::<Vec<_>>()),
+                Err(_) => "err".into(),
+            },
+            None => "-".into(),
+        },
+        Some(Err(_)) => "err".into(),
+        None => "-".into(),
+    };
+    let car = match gdef.lig_caret_list() {
+        Some(Ok(ll)) => match ll.coverage().ok().and_then(|c| c.get(gg)) {
+            Some(i) => match ll.lig_glyphs().get(i as usize) {
+                Ok(lg) => {
+                    let cs: Vec<String> = lg
+                        .caret_values()
+                        .iter()
+                        .map(|cv| match cv {
+                            Ok(CaretValue::Format1(c)) => format!("c{}", c.coordinate()),
+                            Ok(CaretValue::Format2(c)) => format!("p{}", c.caret_value_point_index()),
+                            Ok(CaretValue::Format3(c)) => match c.device() {
+                                Ok(d) => format!("d{}+{}", c.coordinate(), device_obs(gdef, &d, coords)),
+                                Err(_) => format!("d{}+err", c.coordinate()),
+                            },
+                            Err(_) => "err".into(),
+                        })
+                        .collect();
+                    format!("[{}]", cs.join(" "))
+                }
+                Err(_) => "err".into(),
+            },
+            None => "-".into(),
+        },
+        Some(Err(_)) => "err".into(),
+        None => "-".into(),
+    };
+    format!("cls={cls} mac={mac} att={att} car={car}")
+}
+
+/// the mark glyph sets as member lists (`None` = set unreadable)
+fn mark_sets(gdef: &Gdef) -> Option<Vec<Option<Vec<u32>>>> {
+    match gdef.mark_glyph_sets_def() {
+        Some(Ok(m)) => Some(
+            m.coverages()
+                .iter()
+                .map(|c| c.ok().map(|c| c.iter().map(|g| g.to_u32()).collect::<Vec<_>>()))
+                .collect(),
+        ),
+        Some(Err(_)) => Some(vec![None]),
+        None => None,
+    }
+}
+
+struct Ctx<'a> {
+    label: String,
+    data: &'a [u8],
+    font: FontRef<'a>,
+}
+
+fn run_request(s: &mut Session, fc: &Ctx, req: &Req) {
+    let inp = || input_str(&fc.label, req);
+    let Ok(plan) = catch(|| make_plan(&fc.font, req)) else {
+        s.oracle("layout-plan-no-panic", false, inp, || "Plan::new panicked".into());
+        return;
+    };
+    let pv = vh::plan_view(&plan);
+    let out = match catch(|| subset_font(&fc.font, &plan)) {
+        Ok(Ok(b)) => b,
+        Ok(Err(e)) => {
+            s.oracle("layout-subset-font-ok", false, inp, || format!("{e:?}"));
+            return;
+        }
+        Err(p) => {
+            s.oracle("layout-subset-font-ok", false, inp, || format!("panic {p}"));
+            return;
+        }
+    };
+    let Ok(sub) = FontRef::new(&out) else {
+        s.oracle("layout-subset-reopens", false, inp, || "FontRef::new failed".into());
+        return;
+    };
+    let gmap: std::collections::BTreeMap<u32, u32> = pv.glyph_map.iter().copied().collect();
+    let gsub_kept: Vec<(u32, u32)> = pv.glyphset_gsub.iter().filter_map(|g| gmap.get(g).map(|n| (*g, *n))).collect();
+    let coords = sample_coords(axis_count(&fc.font));
+    let Ok(og) = fc.font.gdef() else { return };
+    s.count("gdef:requests");
+    let sg = sub.gdef();
+    // what the original says about the glyphs kept for layout
+    let want: Vec<String> = gsub_kept.iter().map(|(o, _)| gdef_glyph_obs(&og, *o, &coords)).collect();
+    let blank = "cls=0 mac=0 att=- car=-";
+    let any = want.iter().any(|w| w != blank);
+    match &sg {
+        Ok(sg) => {
+            s.count(&format!("gdef:out-version-1.{}", sg.version().minor));
+            for ((o, n), w) in gsub_kept.iter().zip(&want) {
+                let got = gdef_glyph_obs(sg, *n, &coords);
+                s.oracle("gdef-glyph-data-preserved", &got == w, inp, || format!("old {o} new {n}: original {w} subset {got}"));
+            }
+            // ids that are not the image of a glyph kept for layout carry nothing
+            let images: std::collections::BTreeSet<u32> = gsub_kept.iter().map(|p| p.1).collect();
+            let mut bad = None;
+            for n in 0..(pv.num_output_glyphs as u32 + 2).min(65536) {
+                if !images.contains(&n) {
+                    let got = gdef_glyph_obs(sg, n, &coords);
+                    if got != blank {
+                        bad = Some((n, got));
+                        break;
+                    }
+                }
+            }
+            s.oracle("gdef-nothing-for-other-ids", bad.is_none(), inp, || format!("{bad:?}"));
+        }
+        Err(_) => {
+            s.count("gdef:out-absent");
+            let osets = mark_sets(&og);
+            let sets_any = osets.as_ref().map(|v| v.iter().any(|m| m.as_ref().map(|m| m.iter().any(|g| gmap.contains_key(g) && pv.glyphset_gsub.contains(g))).unwrap_or(false))).unwrap_or(false);
+            s.oracle("gdef-kept-iff-something-survives", !any && !sets_any, inp, || {
+                format!("GDEF absent from the subset although the original has data for kept glyphs: {:?}", want.iter().zip(&gsub_kept).find(|(w, _)| *w != blank))
+            });
+        }
+    }
+    // mark glyph sets: membership (through CoverageTable::get, what a shaper asks) of every glyph kept for layout,
+    // set by set; a set survives iff it has a kept member
+    if let Ok(sg) = &sg {
+        let ocov: Vec<_> = match og.mark_glyph_sets_def() {
+            Some(Ok(m)) => m.coverages().iter().map(|c| c.ok()).collect(),
+            _ => vec![],
+        };
+        let scov: Vec<_> = match sg.mark_glyph_sets_def() {
+            Some(Ok(m)) => m.coverages().iter().map(|c| c.ok()).collect(),
+            _ => vec![],
+        };
+        let want_sets: Vec<Vec<u32>> = ocov
+            .iter()
+            .filter_map(|c| {
+                let c = c.as_ref()?;
+                if !c.iter().any(|g| gsub_kept.binary_search_by(|p| p.0.cmp(&g.to_u32())).is_ok()) {
+                    return None;
+                }
+                Some(gsub_kept.iter().filter(|(o, _)| c.get(GlyphId::new(*o)).is_some()).map(|p| p.1).collect())
+            })
+            .collect();
+        let images: std::collections::BTreeSet<u32> = gsub_kept.iter().map(|p| p.1).collect();
+        let got_sets: Vec<Vec<u32>> = scov
+            .iter()
+            .map(|c| match c {
+                Some(c) => {
+                    let mut v: Vec<u32> = gsub_kept.iter().filter(|(_, n)| c.get(GlyphId::new(*n)).is_some()).map(|p| p.1).collect();
+                    // members that are not images of kept glyphs
+                    v.extend(c.iter().map(|g| g.to_u32()).filter(|g| !images.contains(g)).map(|g| g + 1_000_000));
+                    v
+                }
+                None => vec![u32::MAX],
+            })
+            .collect();
+        s.oracle("gdef-mark-glyph-sets=original-nonempty-restricted", want_sets == got_sets, inp, || format!("want {want_sets:?} got {got_sets:?}"));
+        if !ocov.is_empty() {
+            s.count(&format!("gdef:marksets {}->{}", ocov.len().min(9), got_sets.len().min(9)));
+        }
+    }
+    let _ = table(&sub, b"GDEF");
+}
+
+fn corpus_fonts() -> Vec<(String, Vec<u8>)> {
+    let mut out = vec![];
+    for dir in ["/repo/font-test-data/test_data/ttf", "/repo/klippa/test-data/fonts"] {
+        let mut files: Vec<_> = std::fs::read_dir(dir).map(|d| d.filter_map(|e| e.ok()).map(|e| e.path()).collect()).unwrap_or_default();
+        files.sort();
+        for p in files {
+            let ext = p.extension().and_then(|e| e.to_str()).unwrap_or("");
+            if ext != "ttf" && ext != "otf" {
+                continue;
+            }
+            let Ok(data) = std::fs::read(&p) else { continue };
+            let has = FontRef::new(&data)
+                .ok()
+                .map(|f| (f.gdef().is_ok() || f.gsub().is_ok() || f.gpos().is_ok()) && f.cmap().is_ok() && f.maxp().is_ok())
+                .unwrap_or(false);
+            if has {
+                out.push((format!("corpus:{}", p.file_name().unwrap().to_string_lossy()), data));
+            }
+        }
+    }
+    out
+}
+
+fn rand_request(r: &mut Rng, n: u32, cps: &[u32]) -> Req {
+    let mut gids = vec![];
+    let mut unicodes = vec![];
+    let k = r.range(0, 12) as usize;
+    for _ in 0..k {
+        gids.push(r.below(n as u64) as u32);
+    }
+    if r.chance(1, 3) && n > 4 {
+        let a = r.below(n as u64 - 3) as u32;
+        let len = r.range(2, 40) as u32;
+        for g in a..(a + len).min(n) {
+            gids.push(g);
+        }
+    }
+    if !cps.is_empty() {
+        for _ in 0..r.range(0, 8) {
+            unicodes.push(*r.pick(cps));
+        }
+    }
+    gids.sort();
+    gids.dedup();
+    unicodes.sort();
+    unicodes.dedup();
+    let flags = if r.chance(1, 2) { F_RETAIN_GIDS } else { 0 } | if r.chance(1, 4) { 0x0040 } else { 0 };
+    Req { gids, unicodes, flags }
+}
+
+pub fn run(cfg: &Config, s: &mut Session, r: &mut Rng) {
+    let th = cfg.thorough();
+    for (label, data) in corpus_fonts() {
+        let Ok(font) = FontRef::new(&data) else { continue };
+        let n = font.maxp().map(|m| m.num_glyphs() as u32).unwrap_or(0);
+        if n == 0 {
+            continue;
+        }
+        let cps: Vec<u32> = super::cmap_pairs(&font).iter().map(|p| p.0).collect();
+        let fc = Ctx { label, data: &data, font };
+        let nreq = if th { 40 } else { 6 };
+        for _ in 0..nreq {
+            let req = rand_request(r, n, &cps);
+            run_request(s, &fc, &req);
+        }
+        // everything
+        run_request(s, &fc, &Req { gids: (0..n).collect(), unicodes: vec![], flags: 0 });
+        let _ = fc.data;
+    }
+}
